@@ -192,7 +192,10 @@ pub fn format_buf(args: Vec<Rc<Object>>) -> Result<Collector, String> {
                 // specifiers such as '{0}', '{1}', '{0:10}', '{0<5}', '{1:0>5}' etc
                 // 'args' also includes the format specifier. 'args.len()'
                 // So, 'idx_print' should be the next element in args vector.
-                let idx_print = curr_spec_idx.parse::<usize>().map_err(|e| e.to_string())? + 1;
+                let idx_print = curr_spec_idx
+                    .parse::<usize>()
+                    .map_err(|e| e.to_string())?
+                    .saturating_add(1);
                 if idx_print >= args.len() {
                     return Err(String::from("positional argument index exceeded the count"));
                 }
